@@ -200,3 +200,8 @@ package types
 
 //@ contract (FungibleTokenPacketData).ValidateBasic
 //@   ensures true
+
+// trackedTotal(w, denom): the transfer module's tracked total-in-escrow of denom in world w, as other modules see it
+// through the TransferKeeper interface (the transfer keeper's own contracts state it over its store: totalEscrowOf)
+//@ spec func trackedTotal(w World, denom string) int
+//@   axiom forall w World, L Ledger, denom string :: trackedTotal(withLedger(w, L), denom) == trackedTotal(w, denom)
